@@ -13,7 +13,7 @@ LEVEL = 'exploration'
 BUDGET = {'quick': 3000, 'thorough': 12000}
 RULE = ("Case = block kind (Input / InputExp) x presence of allowed/check/schema (8 combinations) "
         "with validator definitions drawn over the domain {-1,0,1,2,'a',None,1.5,(1,),[1]} "
-        "(one unhashable member), schema in {identity,int,str,double,raise-for-subset}, check "
+        "(one unhashable member), schema in {identity,int,str,double,raise-for-subset,map-to-None/0/''/()}, check "
         "returning assorted truthy/falsy objects, initdef / expired / restored persistent value "
         "inside or outside the accepted set, and a sequence of <=6 puts (InputExp: also waits "
         "across the expiration). Oracle: accept iff in allowed and check truthy and schema does "
@@ -28,7 +28,8 @@ DOMAIN = [-1, 0, 1, 2, 'a', None, 1.5, (1,), [1]]
 HASHABLE = [i for i, v in enumerate(DOMAIN) if not isinstance(v, list)]
 TRUTHY = [True, 1, 'y', (0,)]
 FALSY = [False, 0, '', None]
-SCHEMAS = ['identity', 'int', 'str', 'double', 'raise_some']
+SCHEMAS = ['identity', 'int', 'str', 'double', 'raise_some', 'to_falsy']
+FALSY_OUT = [None, 0, '', ()]      # legitimate schema results (a lookup table may map a value to None)
 
 
 class Missing:
@@ -54,6 +55,8 @@ def schema_apply(kind, raise_set, idx):
             return ('raise',)
     if kind == 'raise_some':
         return ('raise',) if idx in raise_set else ('ok', v)
+    if kind == 'to_falsy':
+        return ('ok', FALSY_OUT[idx % len(FALSY_OUT)])
     raise AssertionError(kind)
 
 
@@ -74,6 +77,8 @@ def make_schema(kind, raise_set):
         return str
     if kind == 'double':
         return lambda v: v * 2
+    if kind == 'to_falsy':
+        return lambda v: FALSY_OUT[(index_of(v) or 0) % len(FALSY_OUT)]
 
     def raise_some(v):
         i = index_of(v)
